@@ -25,6 +25,7 @@ func init() {
 		wireHostile(c, n)
 		wireStall(c)
 		runSilentPeerDoesNotDelayOthers(c)
+		runRejectedHandshakesDoNotDelayOthers(c)
 		protoHostile(c)
 		subShortBodies(c)
 		runLimitConfig(c)
